@@ -95,7 +95,10 @@ pub fn replay(path: &Path) -> i32 {
                 w if w.starts_with("iterate_history:") => crate::props_build::replay_iteration_history(&spec, w, &mut st),
                 "graph_info" => crate::props_build::check_graph_info(&spec, true, &mut st),
                 "rank_pops" => crate::props_build::check_pops(&spec, &mut st),
-                w if w.starts_with("call_sequence") => crate::props_build::replay_c16(&spec, w, &mut st),
+                w if w.starts_with("call_sequence") => {
+                    crate::props_build::set_history_props(&[prop]);
+                    crate::props_build::replay_c16(&spec, w, &mut st)
+                }
                 _ => {
                     eprintln!("unknown builder check {what}");
                     return 2;
